@@ -130,11 +130,14 @@ def _only_read(root, texts, defining, par):
     return True
 
 
-def shared_tables(tree, known_globals):
-    """new module-level and class-level constant tables -> {spelling: _Table}"""
+def shared_tables(tree, known_globals, known=False):
+    """new (known=False) or reviewed (known=True) module-level and class-level constant tables -> {spelling: _Table}"""
     cands = []
+
+    def wanted(qual):
+        return (qual in known_globals) == known
     for st in tree.body:
-        if isinstance(st, ast.Assign) and len(st.targets) == 1 and isinstance(st.targets[0], ast.Name) and st.targets[0].id not in known_globals:
+        if isinstance(st, ast.Assign) and len(st.targets) == 1 and isinstance(st.targets[0], ast.Name) and wanted(st.targets[0].id):
             t = _literal_table(st.value)
             if t is not None:
                 cands.append(({st.targets[0].id}, st.targets[0], t, st.targets[0].id))
@@ -150,7 +153,7 @@ def shared_tables(tree, known_globals):
                         return node
                 return Q().visit(e)
             for s in st.body:
-                if isinstance(s, ast.Assign) and len(s.targets) == 1 and isinstance(s.targets[0], ast.Name) and "%s.%s" % (cname, s.targets[0].id) not in known_globals:
+                if isinstance(s, ast.Assign) and len(s.targets) == 1 and isinstance(s.targets[0], ast.Name) and wanted("%s.%s" % (cname, s.targets[0].id)):
                     t = _literal_table(s.value, qualify)
                     if t is not None:
                         n = s.targets[0].id
@@ -561,6 +564,8 @@ def expand_new_tables(tree, modname, reference, qualnames_fn, getattr_rewrite=No
     cons = ref.get("__constructs__", {})
     n_const = inline_new_constants(tree, known_globals)
     shared = shared_tables(tree, known_globals)
+    # reviewed tables of rows (e.g. a tuple of field names) may be walked by a NEW loop: that loop is unrolled too
+    reviewed = {k: v for k, v in shared_tables(tree, known_globals, known=True).items() if v.kind == "rows"} if cons is not None else {}
     # names that are never None: functions, classes, imports of the module; methods
     defs = set()
     plain = set()
@@ -648,11 +653,13 @@ def expand_new_tables(tree, modname, reference, qualnames_fn, getattr_rewrite=No
                     tables[nm] = t
         # inline row loops the reference does not have
         names = set(stored)
-        have_rowloops = list(cons.get(q, {}).get("rowloop", []))
-        if not tables and not any(isinstance(n, ast.For) and isinstance(n.iter, (ast.Tuple, ast.List)) for n in own):
+        have_rowloops = list(cons.get(q, {}).get("rowloop", [])) + list(cons.get(q, {}).get("nameloop", []))
+        have_tableloops = list(cons.get(q, {}).get("tableloop", []))
+        new_table_loops = [n for n in own if isinstance(n, ast.For) and _text(n.iter) in reviewed]
+        if not tables and not new_table_loops and not any(isinstance(n, ast.For) and isinstance(n.iter, (ast.Tuple, ast.List)) for n in own):
             continue
         texts = {_text(n) for n in own if isinstance(n, (ast.Name, ast.Attribute))}
-        if not (set(tables) & texts) and not any(isinstance(n, ast.For) and isinstance(n.iter, (ast.Tuple, ast.List)) for n in own):
+        if not (set(tables) & texts) and not new_table_loops and not any(isinstance(n, ast.For) and isinstance(n.iter, (ast.Tuple, ast.List)) for n in own):
             continue
 
         def new_local_name(nm):
@@ -667,9 +674,20 @@ def expand_new_tables(tree, modname, reference, qualnames_fn, getattr_rewrite=No
             it = st.iter
             tx = _text(it)
             t = None
+            named = False
             if tx in tables:
                 t = tables[tx]
                 rows = [[k] for k, _ in t.rows] if t.kind == "dict" else t.rows
+                named = True
+            elif tx in reviewed:
+                from .normalize import _sig as _nsig
+                sg = _nsig(ast.For(target=st.target, iter=st.iter, body=[ast.Pass()], orelse=[]), names)
+                if sg in have_tableloops:
+                    have_tableloops.remove(sg)
+                    return None
+                t = reviewed[tx]
+                rows = t.rows
+                named = True
             elif isinstance(it, ast.Call) and isinstance(it.func, ast.Attribute) and not it.args and not it.keywords and _text(it.func.value) in tables \
                     and tables[_text(it.func.value)].kind == "dict" and it.func.attr in ("items", "keys", "values"):
                 t = tables[_text(it.func.value)]
@@ -687,8 +705,7 @@ def expand_new_tables(tree, modname, reference, qualnames_fn, getattr_rewrite=No
                 return None
             if not all(stable(x) for r in rows for x in r):
                 return None
-            if all(len(r) == 1 and isinstance(r[0], ast.Constant) and isinstance(r[0].value, str) for r in rows):
-                return None               # a loop over attribute names: respell_new_constructs knows it
+
             tg = st.target
             if isinstance(tg, ast.Name):
                 tnames = [tg.id]
@@ -706,7 +723,19 @@ def expand_new_tables(tree, modname, reference, qualnames_fn, getattr_rewrite=No
             if any(isinstance(n, _SCOPES) for n in body_nodes):
                 return None
             for nm in tnames:
-                if stored.get(nm, 0) != 1 or loads_outside(nm, st) or nm in params:
+                # bound by this loop only (counted now: an earlier loop with the same target may have been unrolled away)
+                # nm is a loop variable only: every binding is the target of a for loop, every read lies in the body of such a loop
+                binders = [l for l in ast.walk(fn) if isinstance(l, ast.For) and any(isinstance(x, ast.Name) and x.id == nm for x in ast.walk(l.target))]
+                bound_ids = {id(x) for l in binders for x in ast.walk(l.target)}
+                inside_ids = {id(x) for l in binders for b_ in l.body + l.orelse for x in ast.walk(b_)}
+                ok_nm = nm not in params
+                for x in ast.walk(fn):
+                    if isinstance(x, ast.Name) and x.id == nm:
+                        if isinstance(x.ctx, (ast.Store, ast.Del)) and id(x) not in bound_ids:
+                            ok_nm = False
+                        elif isinstance(x.ctx, ast.Load) and id(x) not in inside_ids:
+                            ok_nm = False
+                if not ok_nm:
                     return None
             brk = _loop_breaks(st.body)
             shape = "plain"
@@ -748,7 +777,7 @@ def expand_new_tables(tree, modname, reference, qualnames_fn, getattr_rewrite=No
                 res = [S().visit(copy.deepcopy(s)) for s in sts]
                 if getattr_rewrite is not None:
                     res = [getattr_rewrite(s) for s in res]
-                return res
+                return [_setattr_to_store(s) for s in res]
             if shape == "plain":
                 out = []
                 for k, row in enumerate(rows):
@@ -819,7 +848,7 @@ def expand_new_tables(tree, modname, reference, qualnames_fn, getattr_rewrite=No
                 if isinstance(st, _SCOPES):
                     i += 1
                     continue
-                if isinstance(st, ast.For) and depth < 6:
+                if isinstance(st, ast.For) and depth < 60:
                     new = unroll(st)
                     if new is not None:
                         base = getattr(st, "lineno", 0)
@@ -830,8 +859,11 @@ def expand_new_tables(tree, modname, reference, qualnames_fn, getattr_rewrite=No
                         _relocate(new, base, 0)
                         out[i:i + 1] = new
                         changed += 1
+                        # the loop is gone (the enclosing function still holds the old list until this block returns)
+                        st.target = ast.Name(id="__unrolled__", ctx=ast.Store())
+                        st.body = [ast.Pass()]
                         continue                    # look at the unrolled statements again
-                if depth < 6 and _lookups_in(st, tables):
+                if depth < 60 and _lookups_in(st, tables):
                     new = split(out, i)
                     if new is not None:
                         base = getattr(st, "lineno", 0)
@@ -860,6 +892,19 @@ def expand_new_tables(tree, modname, reference, qualnames_fn, getattr_rewrite=No
             ast.fix_missing_locations(fn)
             count += changed
     return count
+
+
+def _setattr_to_store(st):
+    """setattr(o, "name", v) as a statement, with a constant identifier, is  o.name = v  (also inside nested blocks)"""
+    if isinstance(st, ast.Expr) and isinstance(st.value, ast.Call) and isinstance(st.value.func, ast.Name) and st.value.func.id == "setattr" and len(st.value.args) == 3 \
+            and not st.value.keywords and isinstance(st.value.args[1], ast.Constant) and isinstance(st.value.args[1].value, str) and st.value.args[1].value.isidentifier():
+        tgt = ast.Attribute(value=st.value.args[0], attr=st.value.args[1].value, ctx=ast.Store())
+        return ast.fix_missing_locations(ast.copy_location(ast.Assign(targets=[ast.copy_location(tgt, st)], value=st.value.args[2]), st))
+    for fld in ("body", "orelse", "finalbody"):
+        blk = getattr(st, fld, None)
+        if isinstance(blk, list) and blk and isinstance(blk[0], ast.stmt):
+            setattr(st, fld, [_setattr_to_store(x) for x in blk])
+    return st
 
 
 def _remove_stmt(root, target):
